@@ -1411,7 +1411,11 @@ class SQLCompiler(Compiled):
 
     ctes_recursive: bool
 
-    _post_compile_pattern = re.compile(r"__\[POSTCOMPILE_(\S+?)(~~.+?~~)?\]")
+    # the name is anything up to the closing bracket; "]" itself is among
+    # the bindname_escape_characters
+    _post_compile_pattern = re.compile(
+        r"__\[POSTCOMPILE_([^\]]+?)(~~.+?~~)?\]"
+    )
     _pyformat_pattern = re.compile(r"%\(([^)]+?)\)s")
     _positional_pattern = re.compile(
         f"{_pyformat_pattern.pattern}|{_post_compile_pattern.pattern}"
